@@ -28,7 +28,7 @@ struct SchedRecord {   // lives in shared memory next to Shared
 extern SchedRecord* SR;
 
 // run the bodies as tasks under the baton scheduler; returns when all finished (or the run was stopped)
-void run_tasks(const SchedCfg& cfg, std::vector<std::function<void()>>& bodies);
+void run_tasks(const SchedCfg& cfg, std::vector<std::function<void()>>& bodies, const std::vector<int>& waves = std::vector<int>());
 int current_task();
 
 }  // namespace xs
